@@ -50,6 +50,7 @@ pub fn run_line(line: &str, scratch: &str) -> String {
         "lo_derep" => op_lo_derep(c),
         "lo_out" => op_lo_out(c, scratch),
         "lo_graph" => by_width!(c, op_lo_graph),
+        "lo_pipe" => by_width!(c, op_lo_pipe, scratch),
         "buildalign" => by_width!(c, op_buildalign, scratch),
         "covll" => op_covll(c),
         "covcut" => op_covcut(c),
@@ -899,6 +900,89 @@ fn op_lo_graph<IntT: for<'a> UInt<'a>>(c: &Case) -> String {
         .collect();
     s.sort();
     format!("k={} n={} edges={} colours={}", k, names.len(), join(&e), join(&s))
+}
+
+fn fmt_groups(g: &loh::GroupDump) -> String {
+    let mut items: Vec<String> = g
+        .iter()
+        .map(|(e, x, vs)| {
+            let mut v: Vec<String> = vs
+                .iter()
+                .map(|(s, p)| {
+                    let ps: Vec<String> = p.iter().map(|q| q.to_string()).collect();
+                    format!("{}@{}", s, if ps.is_empty() { "~".to_string() } else { ps.join("+") })
+                })
+                .collect();
+            v.sort();
+            format!("{}>{}:{}", e, x, v.join("/"))
+        })
+        .collect();
+    items.sort();
+    if items.is_empty() { "~".into() } else { items.join(";") }
+}
+
+/// `lo_pipe`: the reference-free `ska lo` pipeline on a table (one call per process: `build_graph`
+/// initialises the global pool; `identify_good_kmers` exits the process when there is no entry node):
+/// entry nodes, variant groups (recorded by the hook), SNP columns and indel records as written
+fn op_lo_pipe<IntT: for<'a> UInt<'a>>(c: &Case, scratch: &str) -> String {
+    use ska::skalo::utils::{Config, DataInfo};
+    let dir = format!("{scratch}/lopipe");
+    let _ = std::fs::remove_dir_all(&dir);
+    std::fs::create_dir_all(&dir).unwrap();
+    let a = make_array::<IntT>(c.usize("k"), c.flag("rc"), c.get("table"));
+    let (num, den) = c.get("m").split_once('/').unwrap();
+    let config = Config {
+        input_file: String::new(),
+        output_name: format!("{dir}/o"),
+        max_missing: num.parse::<f32>().unwrap() / den.parse::<f32>().unwrap(),
+        max_depth: c.usize("depth"),
+        max_indel_kmers: c.usize("ik"),
+        nb_threads: 1,
+        reference_genome: None,
+    };
+    let (len_kmer, sample_names, all_kmers, kmer_2_samples) = ska::skalo::input::build_graph(a, 1);
+    let data_info = DataInfo { k_graph: len_kmer - 1, sample_names: sample_names.clone() };
+    // announce the stage reached: the next call may exit the process
+    println!("lo_pipe-stage graph");
+    let (start_kmers, end_kmers) =
+        ska::skalo::extremities::identify_good_kmers(&all_kmers, &kmer_2_samples, &data_info);
+    let mut st: Vec<IntT> = start_kmers.iter().copied().collect();
+    st.sort();
+    ska::skalo::read_graph::build_variant_groups(all_kmers, start_kmers, end_kmers, kmer_2_samples, &config, &data_info);
+    let (sg, ig) = loh::GROUP_SINK.lock().unwrap().take().unwrap();
+    // outputs
+    let fas = std::fs::read_to_string(format!("{dir}/o_snps.fas")).unwrap_or_default();
+    let seqs: Vec<&str> = fas.lines().filter(|l| !l.starts_with('>')).collect();
+    let ncol = seqs.first().map(|x| x.len()).unwrap_or(0);
+    // the columns of one group come out in the order of a hash map: sorted
+    let mut cols: Vec<String> = (0..ncol).map(|i| seqs.iter().map(|x| x.as_bytes()[i] as char).collect()).collect();
+    cols.sort();
+    let vcf = std::fs::read_to_string(format!("{dir}/o_indels.vcf")).unwrap_or_default();
+    let recs: Vec<String> = vcf
+        .lines()
+        .filter(|l| !l.starts_with('#') && !l.is_empty())
+        .map(|l| {
+            let f: Vec<&str> = l.split('\t').collect();
+            let info: Vec<&str> = f[6].split(';').collect();
+            format!(
+                "{}:{}:{}:{}:{}",
+                f[3],
+                f[4],
+                info[0].trim_start_matches("before="),
+                info[1].trim_start_matches("after="),
+                f[9..].join("|")
+            )
+        })
+        .collect();
+    let _ = std::fs::remove_dir_all(&dir);
+    format!(
+        "starts={} sg={} ig={} cols={} recs={}",
+        join(&st),
+        fmt_groups(&sg),
+        fmt_groups(&ig),
+        join(&cols),
+        join(&recs)
+    )
 }
 
 /// `mkskf`: write a table as an .skf file at `out` (for CLI-level checks)
